@@ -33,7 +33,7 @@ if missing and len(missing) <= 5:
         if repo != "/repo":
             env2["PYTHONPATH"] = os.path.join(repo, "src")
         for m, tid in zip(missing, ids):
-            r = subprocess.run(["/venv/bin/python", "-m", "pytest", "-q", "-p", "no:cacheprovider", "-n0", tid],
+            r = subprocess.run(["/venv/bin/python", "-m", "pytest", "-q", "-p", "no:cacheprovider", "-n0", "--no-cov", tid],
                                cwd=repo, env=env2, capture_output=True, text=True)
             shutil.rmtree(os.path.join(repo, ".hypothesis", "examples"), ignore_errors=True)
             if r.returncode == 0:
